@@ -665,13 +665,17 @@ def _split_chain():
     OP = "(" + SC("a", S) + " * " + SC("b", S) + ")"
     OROW = lambda jn: "sumto(%s, lambda j: %s)" % (jn, OP)
     OALL = lambda n: "sumto(%s, lambda i: w[i] * w[i] * %s)" % (n, OROW("4"))
-    HYP = ("w.shape[0] == P and mp.shape[0] >= 4 * P and sz.shape[0] == mp.shape[0] and wt.shape[0] == mp.shape[0] and wt.shape[1] == mp.shape[1]"
-           " and forall(0, mp.shape[0], lambda k: 0 <= sz[k] and sz[k] <= mp.shape[1])")
+    # hypotheses are kept as light as each lemma allows (quantifier-free shape facts H0, the bounds RS of the one row concerned):
+    # a quantified hypothesis has to be re-established whenever the induction hypothesis or an earlier lemma is used
+    H0 = "w.shape[0] == P and mp.shape[0] >= 4 * P and sz.shape[0] == mp.shape[0] and wt.shape[0] == mp.shape[0] and wt.shape[1] == mp.shape[1]"
+    RS = "0 <= " + S + " and " + S + " <= mp.shape[1]"
+    HYP = H0 + " and forall(0, mp.shape[0], lambda k: 0 <= sz[k] and sz[k] <= mp.shape[1])"
     DIST = "forall(0, 4 * P, lambda k: forall(0, sz[k], lambda l: forall(0, l, lambda t: mp[k, t] != mp[k, l])))"
-    QL = lambda body, pat, extra="": ("forall(0, P, lambda i: forall(0, 4, lambda j: forall(0, " + S + ", lambda l: forall(0, P, lambda a: forall(0, P, lambda b: implies("
-                                      + HYP + extra + ", " + body + "), pat=" + pat + ")))))")
-    QIJ = lambda body, pat, extra="": "forall(0, P, lambda i: forall(0, 4, lambda j: forall(0, P, lambda a: forall(0, P, lambda b: implies(" + HYP + extra + ", " + body + "), pat=" + pat + "))))"
-    QA = lambda body, pat, extra="": "forall(0, P, lambda i: forall(0, 4, lambda j: forall(0, P, lambda a: implies(" + HYP + extra + ", " + body + "), pat=" + pat + ")))"
+    W = "mp.shape[1]"
+    QL = lambda hyp, body, pat: ("forall(0, P, lambda i: forall(0, 4, lambda j: forall(0, " + W + ", lambda l: forall(0, P, lambda a: forall(0, P, lambda b: implies("
+                                 + hyp + ", " + body + "), pat=" + pat + ")))))")
+    QIJ = lambda hyp, body, pat: "forall(0, P, lambda i: forall(0, 4, lambda j: forall(0, P, lambda a: forall(0, P, lambda b: implies(" + hyp + ", " + body + "), pat=" + pat + "))))"
+    QA = lambda hyp, body, pat: "forall(0, P, lambda i: forall(0, 4, lambda j: forall(0, P, lambda a: implies(" + hyp + ", " + body + "), pat=" + pat + ")))"
     UA = lambda a, b, lim: "(wt[i * 4 + j, l] * (" + SC(b, lim) + " - " + SC(b, "l") + ") if mp[i * 4 + j, l] == " + a + " else 0)"
     L = []
 
@@ -679,18 +683,18 @@ def _split_chain():
         L.append(dict(name=name, induct=induct, lo=0, hi=hi, stmt=stmt, export=export) if induct else dict(name=name, noinduct=True, stmt=stmt, export=export))
 
     # pairs (l, l + m), m < M, of one row: wt_l times the partial coefficient sums over the positions l .. l + M - 1
-    lem("LA1", QL(T3("M") + " == (wt[i * 4 + j, l] * " + SH("b", "M") + " if mp[i * 4 + j, l] == a else 0) + (wt[i * 4 + j, l] * " + SH("a", "M") + " if mp[i * 4 + j, l] == b else 0)", T3("M")), "M", "mp.shape[1]")
-    lem("LA2", "forall(0, P, lambda i: forall(0, 4, lambda j: forall(0, " + S + ", lambda l: forall(0, P, lambda a: implies(" + HYP + ", " + SH("a", "M") + " == " + SC("a", "l + M") + " - " + SC("a", "l")
-               + "), pat=" + SH("a", "M") + "))))", "M", "mp.shape[1]")
-    lem("LA", QL(T3("M") + " == " + UA("a", "b", "l + M") + " + " + UA("b", "a", "l + M"), T3("M")), "M", "mp.shape[1]")
+    lem("LA2", "forall(0, P, lambda i: forall(0, 4, lambda j: forall(0, " + W + ", lambda l: forall(0, P, lambda a: implies(" + H0 + " and l + M <= " + W + ", " + SH("a", "M") + " == " + SC("a", "l + M") + " - " + SC("a", "l")
+               + "), pat=" + SH("a", "M") + "))))", "M", W)
+    lem("LA1", QL(H0 + " and l + M <= " + W, T3("M") + " == (wt[i * 4 + j, l] * " + SH("b", "M") + " if mp[i * 4 + j, l] == a else 0) + (wt[i * 4 + j, l] * " + SH("a", "M") + " if mp[i * 4 + j, l] == b else 0)", T3("M")), "M", W)
+    lem("LA", "forall(0, " + W + " + 1, lambda M: " + QL(H0 + " and l + M <= " + W, T3("M") + " == " + UA("a", "b", "l + M") + " + " + UA("b", "a", "l + M"), T3("M")) + ")")
     # discrete product rule: all pairs l <= l' with l < n
-    lem("LBe", QL(E("l + 1") + " == " + E("l") + " + " + UA("a", "b", S) + " + " + UA("b", "a", S), "(" + SC("a", "l + 1") + ", " + SC("b", "l + 1") + ")"))
-    lem("LB", QIJ(T2("n") + " == " + E("n"), T2("n"), " and n <= " + S), "n", "mp.shape[1]")
+    lem("LBe", QL(H0 + " and " + RS + " and l < " + S, E("l + 1") + " == " + E("l") + " + " + UA("a", "b", S) + " + " + UA("b", "a", S), "(" + SC("a", "l + 1") + ", " + SC("b", "l + 1") + ")"))
+    lem("LB", QIJ(H0 + " and " + RS + " and n <= " + S, T2("n") + " == " + E("n"), T2("n")), "n", W)
     lem("LC", "forall(0, P, lambda i: forall(0, P, lambda a: forall(0, P, lambda b: implies(" + HYP + ", " + T1("n") + " == " + SROW("n") + "), pat=" + T1("n") + ")))", "n", "4")
     lem("LE", "forall(0, P, lambda a: forall(0, P, lambda b: implies(" + HYP + ", " + T0("n") + " == " + SALL("n") + "), pat=" + T0("n") + "))", "n", "P", export=True)
     # rows with pairwise distinct entries: q_k(a) == c_k(a)^2
-    lem("DS0", QA("implies(forall(0, n, lambda l: mp[i * 4 + j, l] != a), " + SC("a", "n") + " == 0 and " + SQ("a", "n") + " == 0)", "(" + SC("a", "n") + ", " + SQ("a", "n") + ")"), "n", "mp.shape[1]")
-    lem("DS1", QA(SQ("a", "n") + " == " + SC("a", "n") + " * " + SC("a", "n"), "(" + SC("a", "n") + ", " + SQ("a", "n") + ")", " and " + DIST + " and n <= " + S), "n", "mp.shape[1]")
+    lem("DS0", QA(H0 + " and n <= " + W, "implies(forall(0, n, lambda l: mp[i * 4 + j, l] != a), " + SC("a", "n") + " == 0 and " + SQ("a", "n") + " == 0)", "(" + SC("a", "n") + ", " + SQ("a", "n") + ")"), "n", W)
+    lem("DS1", QA(H0 + " and " + RS + " and " + DIST + " and n <= " + S, SQ("a", "n") + " == " + SC("a", "n") + " * " + SC("a", "n"), "(" + SC("a", "n") + ", " + SQ("a", "n") + ")"), "n", W)
     lem("DS2", "forall(0, P, lambda i: forall(0, P, lambda a: forall(0, P, lambda b: implies(" + HYP + " and " + DIST + ", " + SROW("n") + " == (2 if a == b else 1) * " + OROW("n") + "), pat=" + SROW("n") + ")))", "n", "4")
     lem("DS3", "forall(0, P, lambda a: forall(0, P, lambda b: implies(" + HYP + " and " + DIST + ", " + SALL("n") + " == (2 if a == b else 1) * " + OALL("n") + "), pat=" + SALL("n") + "))", "n", "P", export=True)
 
@@ -704,11 +708,15 @@ def _split_chain():
                 tot += w[i] ** 2 * ca * cb
         return float(tot)
 
-    # entry (a, b) of sum_k w_{k//4}^2 L_k L_k^T
-    spec_fn("c07_hs", params=[("w", "real[1]"), ("mp", "int[2]"), ("sz", "int[1]"), ("wt", "real[2]"), ("a", "int"), ("b", "int")], ret="real",
-            let={"P": "w.shape[0]"},
+    # entry (a, b) of sum_k w_{k//4}^2 L_k L_k^T  (definition only; the lemma chain hangs on the alias c07_hsl so that a client of the
+    # definition does not re-prove it -- partial-sum recurrences make large joint proof contexts fragile)
+    PR = [("w", "real[1]"), ("mp", "int[2]"), ("sz", "int[1]"), ("wt", "real[2]"), ("a", "int"), ("b", "int")]
+    spec_fn("c07_hs", params=PR, ret="real", let={"P": "w.shape[0]"},
             axioms=["implies(" + HYP + ", forall(0, P, lambda a: forall(0, P, lambda b: c07_hs(w, mp, sz, wt, a, b) == " + OALL("P") + ", pat=c07_hs(w, mp, sz, wt, a, b))))"],
-            lemmas=L, py=_hs_py, doc="entry (a, b) of sum over cross rows k of w_{k//4}^2 L_k L_k^T, L_k(a) = coefficient of x_a in row k")
+            py=_hs_py, doc="entry (a, b) of sum over cross rows k of w_{k//4}^2 L_k L_k^T, L_k(a) = coefficient of x_a in row k")
+    spec_fn("c07_hsl", params=PR, ret="real", let={"P": "w.shape[0]"},
+            axioms=["implies(" + HYP + ", forall(0, P, lambda a: forall(0, P, lambda b: c07_hsl(w, mp, sz, wt, a, b) == c07_hs(w, mp, sz, wt, a, b), pat=c07_hsl(w, mp, sz, wt, a, b))))"],
+            lemmas=L, py=_hs_py, doc="alias of c07_hs that carries the lemmas relating it to the entrywise contract of the split-cross kernel")
     return DIST, OALL("P")
 
 
@@ -718,9 +726,8 @@ corollary("C07.split.outer_product", props=["C07"], vars={"w": "real[1]", "mp": 
           let={"N": "mp.shape[0]", "P": "toint(mp.shape[0] / 4)"},
           requires=_SPREQ + [_DIST],                 # every row lists pairwise distinct pixels (true of the tables reg_split_from returns)
           calls=[("H", U + "pixel_splitted_regularization_matrix_from", {"regularization_weights": "w", "splitted_mappings": "mp", "splitted_sizes": "sz", "splitted_weights": "wt"})],
-          ensures=["forall(0, P, lambda a: forall(0, P, lambda b: H[a, b] == (1e-08 if a == b else 0) + c07_hs(w, mp, sz, wt, a, b)))",
-                   # the same with c07_hs written out: sum_i w_i^2 sum_{j<4} c_{4i+j}(a) c_{4i+j}(b)  (the hypothesis of C07.quadratic_form.split)
-                   "H.shape[0] == P and H.shape[1] == P and forall(0, P, lambda a: forall(0, P, lambda b: H[a, b] == (1e-08 if a == b else 0) + " + _OALLP + "))"],
+          ensures=["H.shape[0] == P and H.shape[1] == P and forall(0, P, lambda a: forall(0, P, lambda b: H[a, b] == (1e-08 if a == b else 0) + c07_hs(w, mp, sz, wt, a, b)))",
+                   "forall(0, P, lambda a: forall(0, P, lambda b: c07_hsl(w, mp, sz, wt, a, b) == c07_hs(w, mp, sz, wt, a, b)))"],
           sentence="the split-cross matrix is 1e-8 I + sum over cross rows k of w_{k//4}^2 L_k L_k^T (a sum of rank-one PSD terms plus a ridge)")
 
 
@@ -805,12 +812,12 @@ def _split_qf_chain():
 
 
 _SQSP, _SQHYP, _SQHDEF = _split_qf_chain()
-# The hypothesis _SQHDEF is, verbatim, the second conclusion of C07.split.outer_product (the outer-product form of the kernel's result);
-# the two corollaries are kept apart because in a joint proof context the shifted-sum lemma LA2 of c07_hs no longer goes through by
-# e-matching.  (The call below only anchors the corollary; its result is not used.)
+# The second hypothesis is, verbatim, the conclusion of C07.split.outer_product (the outer-product form of the kernel's result); the two
+# corollaries are kept apart because in a joint proof context the shifted-sum lemma LA2 of c07_hsl no longer goes through by e-matching
+# (every partial-sum term spawns a chain of recurrence instances).  The call below only anchors the corollary; its result is not used.
 corollary("C07.quadratic_form.split", props=["C07"],
           vars={"H": "real[2]", "w": "real[1]", "mp": "int[2]", "sz": "int[1]", "wt": "real[2]", "x": "real[1]"}, let={"P": "x.shape[0]"},
-          requires=[_SQHYP, _SQHDEF],
+          requires=[_SQHYP, "H.shape[0] == P and H.shape[1] == P and forall(0, P, lambda a: forall(0, P, lambda b: H[a, b] == (1e-08 if a == b else 0) + c07_hs(w, mp, sz, wt, a, b)))"],
           calls=[("Z0", U + "zeroth_regularization_matrix_from", {"coefficient": "0", "pixels": "0"})],
           ensures=["c07_qs(H, x, w, mp, sz, wt, P) == " + _XHX,
                    # x^T H x = 1e-8 |x|^2 + sum_i w_i^2 sum_{j<4} (L_{4i+j} . x)^2
